@@ -1,11 +1,107 @@
 (* C01 — Replicated refs always match their owner's signed refs.
-   This file contains only theorem statements closed by [exact]. *)
+   This file contains only theorem statements closed by [exact]
+   (and [vm_compute] witnesses for the Examples / the refutation).
+
+   Reading guide: [run anc U c L S = (res, L')] is one fetch with configuration
+   [c] from a server whose reference store is [S] into local storage [L];
+   [ns_of L r] is namespace [r] of a store as a map name -> oid that includes
+   the signed-refs reference (name [SIGREFS]); [U] maps the oid of a
+   signed-refs commit to its parsed content and the two verdicts of
+   SignedRefs::verify.  "The fetch changed namespace r" is
+   [ns_of L' r <> ns_of L r].  [sorted S] only says that S is a map. *)
 From HW Require Import lib.Base lib.SMap model.Fetch proofs.FetchProofs.
 Local Open Scope N_scope.
 
+(* After ANY fetch (success, failure, error, the mid-apply abort), a namespace
+   the fetch changed points its rad/sigrefs at an object with a valid signature
+   that names this repository, contains every reference that object lists with
+   the listed target, and contains nothing else -- except possibly refs/rad/*
+   references which were already there before the fetch, are unchanged, and
+   are no longer signed (the recorded finding c01-stale-rad-ref-kept). *)
+Theorem C01_touched_namespaces_match :
+  forall anc U c L S res L' r, sorted S ->
+    run anc U c L S = (res, L') ->
+    ns_of L' r <> ns_of L r ->
+    exists t o,
+      sigrefs_of L' r = Some t /\ lookup t U = Some o /\
+      so_sig_ok o = true /\ so_root_ok o = true /\
+      (forall n v, lookup n (so_content o) = Some v -> lookup n (ns_of L' r) = Some v) /\
+      (forall n v, n <> SIGREFS -> lookup n (ns_of L' r) = Some v ->
+         lookup n (so_content o) = Some v \/
+         (is_rad n = true /\ lookup n (so_content o) = None /\ lookup n (ns_of L r) = Some v)).
+Proof. exact touched_namespaces_match. Qed.
+
+(* Outside the recorded class the match is exact: if the namespace held no
+   refs/rad/* reference other than rad/sigrefs before the fetch (e.g. every
+   clone, every new namespace), then after the fetch it holds exactly the
+   signed references. *)
+Theorem C01_touched_namespaces_match_exactly :
+  forall anc U c L S res L' r, sorted S ->
+    run anc U c L S = (res, L') ->
+    ns_of L' r <> ns_of L r ->
+    (forall n, is_rad n = true -> n <> SIGREFS -> lookup n (ns_of L r) = None) ->
+    exists t o,
+      sigrefs_of L' r = Some t /\ lookup t U = Some o /\
+      so_sig_ok o = true /\ so_root_ok o = true /\
+      forall n, n <> SIGREFS -> lookup n (ns_of L' r) = lookup n (so_content o).
+Proof. exact touched_namespaces_exact. Qed.
+
+(* The recorded class is real: a pull after which the changed namespace keeps
+   refs/rad/root (41) although its new signed refs no longer list it. *)
+Definition stale_U : universe :=
+  [(100, mkSigObj [(20, 5); (41, 1)] true true); (101, mkSigObj [(20, 6)] true true)].
+Definition stale_cfg : cfg := mkCfg [1] 1 9 [] None false None true.
+Definition stale_L : store := [(1, [(20, 5); (41, 1); (42, 100)])].
+Definition stale_S : store := [(1, [(20, 6); (42, 101)])].
+
+Theorem C01_exact_match_refuted_by_stale_rad_ref :
+  exists anc U c L S res L' r t o n v,
+    sorted S /\ run anc U c L S = (res, L') /\ ns_of L' r <> ns_of L r /\
+    sigrefs_of L' r = Some t /\ lookup t U = Some o /\
+    n <> SIGREFS /\ lookup n (ns_of L' r) = Some v /\ lookup n (so_content o) = None.
+Proof.
+  exists (anc_of [(100, 101)]), stale_U, stale_cfg, stale_L, stale_S, RSuccess,
+    [(1, [(20, 6); (41, 1); (42, 101)])], 1, 101, (mkSigObj [(20, 6)] true true), 41, 1.
+  split; [repeat constructor|].
+  split; [vm_compute; reflexivity|].
+  split; [vm_compute; discriminate|].
+  repeat split; try (vm_compute; reflexivity). vm_compute. discriminate.
+Qed.
+
+(* A namespace that is blocked -- on a pull that includes the local node's own
+   namespace -- is never changed, whatever the server advertises or the
+   announcement lists. *)
+Theorem C01_blocked_namespace_untouched :
+  forall anc U c L S res L' r, sorted S ->
+    run anc U c L S = (res, L') -> is_blocked c r = true -> ns_of L' r = ns_of L r.
+Proof. exact blocked_namespace_untouched. Qed.
+
 (* Every outcome other than Success and the non-fast-forward abort in the
-   middle of applying (RErr 4) leaves local storage literally unchanged. *)
+   middle of applying (RErr 4) leaves local storage literally unchanged; for
+   RErr 4 the first theorem still applies to every namespace it touched. *)
 Theorem C01_error_leaves_storage :
   forall anc U c L S res L',
     run anc U c L S = (res, L') -> res <> RSuccess -> res <> RErr 4 -> L' = L.
 Proof. exact run_no_apply_unchanged. Qed.
+
+(* Non-vacuity: a clone that creates a namespace, a pull that moves one. *)
+Example C01_example_clone_changes_a_namespace :
+  run (anc_of []) [(100, mkSigObj [(20, 5); (40, 1)] true true)]
+      (mkCfg [1] 1 9 [] None true None true) [] [(1, [(20, 5); (40, 1); (42, 100)])]
+  = (RSuccess, [(1, [(20, 5); (40, 1); (42, 100)])]).
+Proof. vm_compute. reflexivity. Qed.
+
+Example C01_example_tampered_signature_is_an_error :
+  run (anc_of []) [(100, mkSigObj [(20, 5); (40, 1)] false true)]
+      (mkCfg [1] 1 9 [] None true None true) [] [(1, [(20, 5); (40, 1); (42, 100)])]
+  = (RErr 2, []).
+Proof. vm_compute. reflexivity. Qed.
+
+Example C01_example_unsigned_rad_id_rejects_the_namespace :
+  (* namespace 2 advertises a rad/id its signed refs do not list: it is left out,
+     namespace 1 (the delegate) is replicated *)
+  run (anc_of []) [(100, mkSigObj [(20, 5); (40, 1)] true true); (200, mkSigObj [(20, 7)] true true)]
+      (mkCfg [1] 1 9 [] None true None true) []
+      [(1, [(20, 5); (40, 1); (42, 100)]); (2, [(20, 7); (40, 1); (42, 200)])]
+  = (RSuccess, [(1, [(20, 5); (40, 1); (42, 100)])]).
+Proof. vm_compute. reflexivity. Qed.
